@@ -1,19 +1,22 @@
 #!/bin/bash
-# usage: seedrun.sh <prop> <diff-file> [tier]   — apply a seeded change to /repo, run the check, revert.
-# prints: RESULT <prop> <diff> caught|missed|builderror  + signatures
-prop=$1; diff=$2; tier=${3:-quick}
-cd /repo || exit 2
-if ! git diff --quiet; then echo "repo dirty"; exit 2; fi
-if ! git apply --check "$diff" 2>/dev/null; then echo "RESULT $prop $diff does-not-apply"; exit 2; fi
-git apply "$diff"
-out=$(cd /verif && ./check "$prop" --tier "$tier" 2>&1); rc=$?
-git checkout -- .
-git status --short | grep -v '^??' | head -3
-sigs=$(for f in /verif/replays/${prop}-*.json; do [ -f "$f" ] && jq -r .violation.signature "$f"; done | sort | uniq -c | tr '\n' ';')
-rm -f /verif/replays/${prop}-*.json
-git -C /verif checkout -- evidence 2>/dev/null
+# usage: seedrun.sh <prop> <diff-file> [tier] [extra props...]
+# Checks a seeded change WITHOUT touching /repo: a scratch worktree of /repo's HEAD is created under
+# /tmp, the diff applied there, and ./check is pointed at it (VERIF_REPO) with its output redirected
+# (VERIF_OUT), so several of these can run side by side. The worktree is removed afterwards.
+# prints: RESULT <prop> <diff> caught|missed|toolerror + signatures
+prop=$1; diff=$(readlink -f "$2"); tier=${3:-quick}
+wt=$(mktemp -d /tmp/seedrun.XXXXXX); out="$wt.out"
+git -C /repo worktree add --detach -q "$wt" HEAD || { echo "RESULT $prop $diff worktree-failed"; exit 2; }
+cleanup() { git -C /repo worktree remove --force "$wt" 2>/dev/null; rm -rf "$wt" "$out"; git -C /repo worktree prune; }
+trap cleanup EXIT
+if ! git -C "$wt" apply "$diff" 2>/dev/null; then echo "RESULT $prop $diff does-not-apply"; exit 2; fi
+log=$(VERIF_REPO="$wt" VERIF_OUT="$out" /verif/check "$prop" --tier "$tier" 2>&1); rc=$?
+sigs=$(for f in "$out"/replays/${prop}-*.json; do [ -f "$f" ] && jq -r .violation.signature "$f"; done | sort | uniq -c | tr '\n' ';')
+label=$(echo "$diff" | sed 's#.*/seeded/##')
 case $rc in
- 1) echo "RESULT $prop $(basename $diff) caught tier=$tier sigs: $sigs";;
- 0) echo "RESULT $prop $(basename $diff) missed tier=$tier :: $(echo "$out" | grep -E "$tier:" | tail -1)";;
- *) echo "RESULT $prop $(basename $diff) toolerror rc=$rc :: $(echo "$out" | grep -iE "error|fail" | head -3)";;
+ 1) echo "RESULT $prop $label caught tier=$tier sigs: $sigs";;
+ 0) echo "RESULT $prop $label missed tier=$tier :: $(echo "$log" | grep -E "$tier:" | tail -1)";;
+ *) echo "RESULT $prop $label toolerror rc=$rc :: $(echo "$log" | grep -iE "error|fail" | head -3)";;
 esac
+if [ -n "${KEEP_REPLAY:-}" ] && [ $rc -eq 1 ]; then mkdir -p "$KEEP_REPLAY"; cp "$out"/replays/${prop}-*.json "$KEEP_REPLAY"/ 2>/dev/null; fi
+exit 0
